@@ -314,3 +314,19 @@ def simplify(plan):
                     c = copy.deepcopy(plan)
                     c['steps'][i]['items'][j]['attrs'] = keep
                     yield c
+
+
+def directed(tier):
+    """Regression for the repaired placeholder carry-over (6259624)."""
+    mk = {'op': 'Create', 'label': 'k', 'otype': 'SymmetricKey', 'attrs': [
+        gen.A('Cryptographic Algorithm', 3),
+        gen.A('Cryptographic Length', 128),
+        gen.A('Cryptographic Usage Mask', 12)]}
+    out = []
+    for name in ('Get', 'Destroy', 'GetAttributes'):
+        out.append({'actors': [{'cn': 'user0'}, {'cn': 'user1'}],
+                    'policies': None, 'seed': 7,
+                    'steps': [{'actor': 0, 'ver': [1, 2], 'items': [mk]}],
+                    'probe': {'actor': 0, 'ver': [1, 2],
+                              'items': [{'op': name}]}})
+    return out
